@@ -129,6 +129,66 @@ theorem FK.setX_same {g : Ghost} {st : St} (K : FK g st) (i : Nat) (x : WinX) (h
   intro j w hl
   rw [hget]; exact K.ex j w hl
 
+/-! ## no mouse handler claims an event -/
+
+/-- No handler bound on a mouse event returns true (`_handle_mouse` then returns no window). -/
+def NoClaim (st : St) : Prop := ∀ (i : Nat) (b : Bind), b ∈ (getX st i).binds → b.ev = some .mouse → b.ret = false
+
+theorem NoClaim.of_wx {st st' : St} (H : NoClaim st) (h : st'.wx = st.wx) : NoClaim st' := by
+  intro i b hb; unfold getX at hb; rw [h] at hb; exact H i b hb
+
+theorem NoClaim.setX {st : St} (H : NoClaim st) (i : Nat) (x : WinX)
+    (hb : ∀ b ∈ x.binds, b.ev = some .mouse → b.ret = false) : NoClaim (setX st i x) := by
+  intro j b hbj
+  rw [getX_setX] at hbj
+  split at hbj
+  · exact hb b hbj
+  · exact H j b hbj
+
+theorem consume_nc : ∀ (dropped : List Nat) {st : St}, NoClaim st → NoClaim (consume st dropped)
+  | [], _, H => H
+  | d :: rest, st, H => by
+    unfold consume
+    rw [List.foldl_cons]
+    exact consume_nc rest (H.setX d _ (fun b hb => H d b hb))
+
+theorem releaseWin_nc {st st' : St} {w : Nat} (H : NoClaim st) (h : releaseWin st w = .ok st') : NoClaim st' := by
+  unfold releaseWin at h
+  simp only [bind_eq_ok] at h
+  obtain ⟨st1, h1, h2⟩ := h
+  have H0 : NoClaim (setX st w { getX st w with binds := [] }) := H.setX w _ (fun b hb => by simp at hb)
+  have H1 : NoClaim st1 := by
+    unfold dropWinPen at h1
+    split at h1
+    · simp only [pure_ok, Out.ok.injEq] at h1; rw [← h1]; exact H0
+    · simp only [pure_ok, Out.ok.injEq] at h1; rw [← h1]; exact H0
+    · exact H0.of_wx (penUnref_wx h1)
+  have H2 : NoClaim (setX st1 w { getX st1 w with pen := .null }) := H1.setX w _ (fun b hb => H1 w b hb)
+  split at h2
+  · split at h2
+    · cases h2
+    · unfold termUnref at h2
+      split at h2
+      · cases h2
+      · split at h2
+        · cases h2
+        · simp only [pure_ok, Out.ok.injEq] at h2; rw [← h2]; exact H2.of_wx rfl
+  · simp only [pure_ok, Out.ok.injEq] at h2; rw [← h2]; exact H2
+
+theorem foldlM_releaseWin_nc : ∀ (ws : List Nat) {st st' : St}, NoClaim st → ws.foldlM releaseWin st = .ok st' → NoClaim st'
+  | [], st, st', H, h => by simp only [List.foldlM_nil, pure_ok, Out.ok.injEq] at h; rw [← h]; exact H
+  | w :: rest, st, st', H, h => by
+    simp only [List.foldlM_cons, bind_eq_ok] at h
+    obtain ⟨st1, h1, h2⟩ := h
+    exact foldlM_releaseWin_nc rest (releaseWin_nc H h1) h2
+
+theorem unrefW_nc {cfg : Cfg} {st st' : St} {w : Nat} (H : NoClaim st) (h : unrefW cfg st w = .ok st') : NoClaim st' := by
+  unfold unrefW at h
+  simp only [bind_eq_ok] at h
+  obtain ⟨r, _, h2⟩ := h
+  have H0 : NoClaim { st with tree := r.1 } := H.of_wx rfl
+  exact foldlM_releaseWin_nc r.2.1 (consume_nc r.2.2 H0) h2
+
 /-- What every step of the routing does to the tree: it keeps its size, only removes parent links, and brings no
     window back to life. -/
 structure Shr (st st' : St) : Prop where
@@ -137,16 +197,19 @@ structure Shr (st st' : St) : Prop where
   back : ∀ (i : Nat) (w' : Win), LiveW st'.tree i w' → ∃ w, LiveW st.tree i w
   /-- a handler takes or drops no reference to the terminal for the application -/
   tapp : st'.term.appRefs = st.term.appRefs
+  /-- no step binds anything: if nothing claimed a mouse event before, nothing does after -/
+  nc : NoClaim st → NoClaim st'
 
-theorem Shr.refl (st : St) : Shr st st := ⟨rfl, PSub.refl _, fun _ w h => ⟨w, h⟩, rfl⟩
+theorem Shr.refl (st : St) : Shr st st := ⟨rfl, PSub.refl _, fun _ w h => ⟨w, h⟩, rfl, id⟩
 
 theorem Shr.trans {a b c : St} (h1 : Shr a b) (h2 : Shr b c) : Shr a c :=
   ⟨h2.size.trans h1.size, h1.psub.trans h2.psub, fun i w' hl' => by
     obtain ⟨w, hl⟩ := h2.back i w' hl'
-    exact h1.back i w hl, h2.tapp.trans h1.tapp⟩
+    exact h1.back i w hl, h2.tapp.trans h1.tapp, fun h => h2.nc (h1.nc h)⟩
 
-theorem Shr.of_tree {st st' : St} (h : st'.tree = st.tree) (ht : st'.term.appRefs = st.term.appRefs) : Shr st st' :=
-  ⟨by rw [h], by rw [h]; exact PSub.refl _, fun i w hl => ⟨w, by rw [← h]; exact hl⟩, ht⟩
+theorem Shr.of_tree {st st' : St} (h : st'.tree = st.tree) (ht : st'.term.appRefs = st.term.appRefs)
+    (hn : NoClaim st → NoClaim st') : Shr st st' :=
+  ⟨by rw [h], by rw [h]; exact PSub.refl _, fun i w hl => ⟨w, by rw [← h]; exact hl⟩, ht, hn⟩
 
 /-- A chain of parents after is one before. -/
 theorem Shr.reach {st st' : St} (h : Shr st st') {i a : Nat} (hr : Reach st'.tree i a) : Reach st.tree i a := h.psub.reach hr
@@ -159,7 +222,8 @@ theorem unrefW_FK {cfg : Cfg} (R : Repaired cfg) {g : Ghost} {st : St} (K : FK g
       Shr st st' := by
   obtain ⟨xw, hxl, hpos⟩ := heldW_spec hh
   obtain ⟨st', hu, inv', hsz, _, _, _, dead, dropped, hcnt, happ, hreach, hsurv, hps, hlast, hdgt, hdeadf⟩ := unrefW_ok R K.inv hh
-  refine ⟨st', hu, ?_, ⟨hsz, hps, fun i w' hl' => by obtain ⟨w, hl, _⟩ := hcnt i w' hl'; exact ⟨w, hl⟩, (unrefW_tally hu).tapp⟩⟩
+  refine ⟨st', hu, ?_, ⟨hsz, hps, fun i w' hl' => by obtain ⟨w, hl, _⟩ := hcnt i w' hl'; exact ⟨w, hl⟩, (unrefW_tally hu).tapp,
+    fun h => unrefW_nc (h.setX x { getX st x with appRefs := (getX st x).appRefs - 1 } (fun b hb => h x b hb)) hu⟩⟩
   -- a cascade there is only if no frame holds `x`
   have hgx : (dead ≠ [] ∨ dropped ≠ []) → g.win x = 0 := by
     intro hne
@@ -239,7 +303,7 @@ theorem FK.refI {g : Ghost} {st : St} (K : FK g st) {win : Nat} {ww : Win} (hw :
     ∃ st', refW st win = .ok st' ∧ FK (g.bumpW win) st' ∧ Shr st st' ∧ st'.wx = st.wx := by
   unfold refW
   simp only [getW, get_live hw, bind_ok, pure_ok]
-  refine ⟨_, rfl, ?_, ⟨set_size _ _ _, ?_, ?_, rfl⟩, rfl⟩
+  refine ⟨_, rfl, ?_, ⟨set_size _ _ _, ?_, ?_, rfl, fun h => h.of_wx rfl⟩, rfl⟩
   · have hex := K.exact hw
     have hl0 : LiveW (WinTree.set st.tree win { ww with refcount := ww.refcount + 1 }) win { ww with refcount := ww.refcount + 1 } :=
       ⟨set_get_self _ hw.lt, hw.2⟩
@@ -364,7 +428,7 @@ theorem FK.unrefI {cfg : Cfg} (R : Repaired cfg) {g : Ghost} {st : St} (K : FK g
     rw [this]
     exact setX_setX_getX st win xp
   rw [hback] at hu
-  exact ⟨st', hu, K', ⟨S'.size, S'.psub, S'.back, S'.tapp⟩⟩
+  exact ⟨st', hu, K', ⟨S'.size, S'.psub, S'.back, S'.tapp, fun h => S'.nc (h.setX win xp (fun b hb => h win b hb))⟩⟩
 
 /-! ## what a handler does -/
 
@@ -425,7 +489,8 @@ theorem simpleOp_FK {cfg : Cfg} (R : Repaired cfg) {g : Ghost} {st : St} (K : FK
           exact K.disc w ww p hw hp hg
         · exact K.disc c cw p ⟨by rw [← set_get_ne _ hc]; exact hl''.1, hl''.2⟩ hp hg
       · rw [hst1]
-        refine ⟨set_size _ _ _, ?_, ?_, rfl⟩
+        refine ⟨set_size _ _ _, ?_, ?_, rfl, fun h =>
+          (h.setX w { getX st w with appRefs := (getX st w).appRefs + 1 } (fun b hb => h w b hb)).of_wx rfl⟩
         · intro i w' p hw' hp'
           have hw'' : (WinTree.set st.tree w { ww with refcount := ww.refcount + 1 }).wins[i]? = some w' := hw'
           by_cases hi : w = i
@@ -446,7 +511,7 @@ theorem simpleOp_FK {cfg : Cfg} (R : Repaired cfg) {g : Ghost} {st : St} (K : FK
       simp only [hh, if_true]
       obtain ⟨t', hc, C⟩ := closeT_ok R.closePurges R.dragForgottenOnClose K.inv.tinv hw
       have K' := K.of_closed hw C
-      refine ⟨_, by rw [liftT_ok hc], K', ⟨C.size_eq, ?_, ?_, rfl⟩⟩
+      refine ⟨_, by rw [liftT_ok hc], K', ⟨C.size_eq, ?_, ?_, rfl, fun h => h.of_wx rfl⟩⟩
       · intro i w' p hw' hp'
         have hw'' : t'.wins[i]? = some w' := hw'
         cases h0 : st.tree.wins[i]? with
@@ -491,7 +556,7 @@ theorem simpleOp_FK {cfg : Cfg} (R : Repaired cfg) {g : Ghost} {st : St} (K : FK
       obtain ⟨t', hq, inv', hwins⟩ := request_ok K.inv.tinv hh.2 hw hreach
       have hrel : TRel st.tree t' := trel_of_wins hwins
       have K' := K.of_rel inv' hrel (SameRC.of_wins hwins)
-      exact ⟨_, by rw [liftT_ok hq], K', ⟨by rw [hwins], PSub.of_wins hwins, fun i w' hl' => ⟨w', by rw [← hwins]; exact hl'.1, hl'.2⟩, rfl⟩⟩
+      exact ⟨_, by rw [liftT_ok hq], K', ⟨by rw [hwins], PSub.of_wins hwins, fun i w' hl' => ⟨w', by rw [← hwins]; exact hl'.1, hl'.2⟩, rfl, fun h => h.of_wx rfl⟩⟩
     · left; simp only [hh, Bool.false_eq_true, if_false]
   case hide w =>
     by_cases hh : usableW st w = true
@@ -501,7 +566,7 @@ theorem simpleOp_FK {cfg : Cfg} (R : Repaired cfg) {g : Ghost} {st : St} (K : FK
       obtain ⟨t', hq, inv', hrel, hrc⟩ := hideT_ok K.inv.tinv hw
       exact ⟨_, by rw [liftT_ok hq], K.of_rel inv' hrel hrc, ⟨hrel.1, fun i w' p hw' hp' => by
         obtain ⟨w0, hw0, hr⟩ := hrel.back hw'; exact ⟨w0, hw0, by rw [← hr.1]; exact hp'⟩,
-        fun i w' hl' => by obtain ⟨w0, hl0, _⟩ := hrel.live_back hl'; exact ⟨w0, hl0⟩, rfl⟩⟩
+        fun i w' hl' => by obtain ⟨w0, hl0, _⟩ := hrel.live_back hl'; exact ⟨w0, hl0⟩, rfl, fun h => h.of_wx rfl⟩⟩
     · left; simp only [hh, Bool.false_eq_true, if_false]
   case «show» w =>
     by_cases hh : usableW st w = true
@@ -511,7 +576,7 @@ theorem simpleOp_FK {cfg : Cfg} (R : Repaired cfg) {g : Ghost} {st : St} (K : FK
       obtain ⟨t', hq, inv', hrel, hrc⟩ := showT_ok K.inv.tinv hw
       exact ⟨_, by rw [liftT_ok hq], K.of_rel inv' hrel hrc, ⟨hrel.1, fun i w' p hw' hp' => by
         obtain ⟨w0, hw0, hr⟩ := hrel.back hw'; exact ⟨w0, hw0, by rw [← hr.1]; exact hp'⟩,
-        fun i w' hl' => by obtain ⟨w0, hl0, _⟩ := hrel.live_back hl'; exact ⟨w0, hl0⟩, rfl⟩⟩
+        fun i w' hl' => by obtain ⟨w0, hl0, _⟩ := hrel.live_back hl'; exact ⟨w0, hl0⟩, rfl, fun h => h.of_wx rfl⟩⟩
     · left; simp only [hh, Bool.false_eq_true, if_false]
   case flush =>
     by_cases hh : heldW st 0 = true
@@ -521,7 +586,7 @@ theorem simpleOp_FK {cfg : Cfg} (R : Repaired cfg) {g : Ghost} {st : St} (K : FK
       obtain ⟨t', hq, inv', hrel, _, _, hrc⟩ := flushT_ok K.inv.tinv hr
       exact ⟨_, by rw [liftT_ok hq], K.of_rel inv' hrel hrc, ⟨hrel.1, fun i w' p hw' hp' => by
         obtain ⟨w0, hw0, hr⟩ := hrel.back hw'; exact ⟨w0, hw0, by rw [← hr.1]; exact hp'⟩,
-        fun i w' hl' => by obtain ⟨w0, hl0, _⟩ := hrel.live_back hl'; exact ⟨w0, hl0⟩, rfl⟩⟩
+        fun i w' hl' => by obtain ⟨w0, hl0, _⟩ := hrel.live_back hl'; exact ⟨w0, hl0⟩, rfl, fun h => h.of_wx rfl⟩⟩
     · left; simp only [hh, Bool.false_eq_true, if_false]
   case unbindSelf =>
     cases self with
@@ -550,13 +615,38 @@ theorem simpleOp_FK {cfg : Cfg} (R : Repaired cfg) {g : Ghost} {st : St} (K : FK
                                       needsDelete := x1.needsDelete || x1.binds.any (fun b => b.id = id) } : WinX) = x2
           have hx2p : x2.pen = (getX (setX st w x1) w).pen := by rw [← hx2, hg1]
           have hx2a : x2.appRefs = (getX (setX st w x1) w).appRefs := by rw [← hx2, hg1]
-          exact ⟨_, rfl, K1.setX_same w x2 hx2p hx2a, Shr.of_tree rfl rfl⟩
+          refine ⟨_, rfl, K1.setX_same w x2 hx2p hx2a, Shr.of_tree rfl rfl (fun h => ?_)⟩
+          have h1 : NoClaim (setX st w x1) := h.setX w x1 (fun b hb => by
+            rw [← hx1] at hb
+            simp only [List.mem_map] at hb
+            obtain ⟨b0, hb0, he⟩ := hb
+            have := h w b0 hb0
+            rw [← he]; split <;> exact this)
+          refine h1.setX w x2 (fun b hb => ?_)
+          rw [← hx2] at hb
+          simp only [List.mem_map] at hb
+          obtain ⟨b0, hb0, he⟩ := hb
+          have hb0' : b0 ∈ (getX (setX st w x1) w).binds := by rw [hg1]; exact hb0
+          have := h1 w b0 hb0'
+          rw [← he]; split
+          · intro hc; cases hc
+          · exact this
         · rw [if_neg hit]
           simp only [pure_ok]
           generalize hx2 : ({ x1 with binds := x1.binds.filter (fun b => b.id ≠ id) } : WinX) = x2
           have hx2p : x2.pen = (getX (setX st w x1) w).pen := by rw [← hx2, hg1]
           have hx2a : x2.appRefs = (getX (setX st w x1) w).appRefs := by rw [← hx2, hg1]
-          exact ⟨_, rfl, K1.setX_same w x2 hx2p hx2a, Shr.of_tree rfl rfl⟩
+          refine ⟨_, rfl, K1.setX_same w x2 hx2p hx2a, Shr.of_tree rfl rfl (fun h => ?_)⟩
+          have h1 : NoClaim (setX st w x1) := h.setX w x1 (fun b hb => by
+            rw [← hx1] at hb
+            simp only [List.mem_map] at hb
+            obtain ⟨b0, hb0, he⟩ := hb
+            have := h w b0 hb0
+            rw [← he]; split <;> exact this)
+          refine h1.setX w x2 (fun b hb => ?_)
+          rw [← hx2] at hb
+          have hb0' : b ∈ (getX (setX st w x1) w).binds := by rw [hg1]; exact (List.mem_filter.1 hb).1
+          exact h1 w b hb0'
       · left; rw [if_neg hh]
 
 theorem runActs_FK {cfg : Cfg} (R : Repaired cfg) {g : Ghost} (self : Id × Int) : ∀ (acts : List Act) {st : St}, FK g st →
@@ -585,7 +675,7 @@ theorem runBinds_go_FK {cfg : Cfg} (R : Repaired cfg) {g : Ghost} (win : Id) (ev
       dsimp only
       split
       · obtain ⟨st1, h1, K1, S1⟩ := runActs_FK R (win, c.id) c.acts (K.set_log (st.log ++ [tag]))
-        have S0 : Shr st { st with log := st.log ++ [tag] } := Shr.of_tree rfl rfl
+        have S0 : Shr st { st with log := st.log ++ [tag] } := Shr.of_tree rfl rfl (fun h => h.of_wx rfl)
         simp only [h1, bind_ok]
         split
         · exact ⟨st1, true, rfl, K1, S0.trans S1⟩
@@ -611,8 +701,13 @@ theorem runBinds_FK {cfg : Cfg} (R : Repaired cfg) {g : Ghost} {st : St} (K : FK
            needsDelete := (getX st2 win).needsDelete, appRefs := (getX st2 win).appRefs }) = x
   have hxp : x.pen = (getX st2 win).pen := by rw [← hx]; split <;> rfl
   have hxa : x.appRefs = (getX st2 win).appRefs := by rw [← hx]; split <;> rfl
-  have S1 : Shr st (setX st win { getX st win with iterating := true }) := Shr.of_tree rfl rfl
-  have S3 : Shr st2 (setX st2 win x) := Shr.of_tree rfl rfl
+  have hxb : ∀ b ∈ x.binds, b ∈ (getX st2 win).binds := by
+    rw [← hx]; split
+    · intro b hb; exact (List.mem_filter.1 hb).1
+    · intro b hb; exact hb
+  have S1 : Shr st (setX st win { getX st win with iterating := true }) :=
+    Shr.of_tree rfl rfl (fun h => h.setX win _ (fun b hb => h win b hb))
+  have S3 : Shr st2 (setX st2 win x) := Shr.of_tree rfl rfl (fun h => h.setX win x (fun b hb => h win b (hxb b hb)))
   exact ⟨_, _, rfl, K2.setX_same win x hxp hxa, (S1.trans S2).trans S3⟩
 
 /-! ## nothing below the window of a frame is held when the frame starts -/
@@ -1033,5 +1128,199 @@ theorem step_key_any {cfg : Cfg} (R : Repaired cfg) {g : Ghost} {st : St} (inv :
     exact ⟨_, _, rfl, inv1⟩
   · simp only [hT, Bool.not_false, if_true, skipR, pure_ok]
     exact ⟨_, _, rfl, inv⟩
+
+/-! ## `_handle_mouse` with handlers that may do anything but claim the event -/
+
+theorem runBinds_go_FK_mouse {cfg : Cfg} (R : Repaired cfg) {g : Ghost} (win : Id) (tag : String) :
+    ∀ (bs : List Bind) {st : St}, FK g st → NoClaim st →
+      ∃ st', runBinds.go cfg win .mouse tag st bs = .ok (st', false) ∧ FK g st' ∧ Shr st st'
+  | [], st, K, _ => ⟨st, rfl, K, Shr.refl st⟩
+  | b :: rest, st, K, H => by
+    unfold runBinds.go
+    dsimp only
+    cases hc : List.find? (fun c => decide (c.id = b.id ∧ b.id ≠ -1)) (getX st win).binds with
+    | none => exact runBinds_go_FK_mouse R win tag rest K H
+    | some c =>
+      dsimp only
+      split
+      · rename_i hev
+        have hret : c.ret = false := H win c (List.mem_of_find?_eq_some hc) hev
+        obtain ⟨st1, h1, K1, S1⟩ := runActs_FK R (win, c.id) c.acts (K.set_log (st.log ++ [tag]))
+        have S0 : Shr st { st with log := st.log ++ [tag] } := Shr.of_tree rfl rfl (fun h => h.of_wx rfl)
+        simp only [h1, bind_ok, hret, Bool.false_eq_true, if_false]
+        obtain ⟨st2, h2, K2, S2⟩ := runBinds_go_FK_mouse R win tag rest K1 (S1.nc (S0.nc H))
+        exact ⟨st2, h2, K2, (S0.trans S1).trans S2⟩
+      · exact runBinds_go_FK_mouse R win tag rest K H
+
+/-- `run_events_whilefalse(win, TICKIT_WINDOW_ON_MOUSE, info)` when no handler claims: every handler runs, the answer is 0. -/
+theorem runBinds_FK_mouse {cfg : Cfg} (R : Repaired cfg) {g : Ghost} {st : St} (K : FK g st) (H : NoClaim st) {win : Nat}
+    (hg : 0 < g.win win) (tag : String) : ∃ st', runBinds cfg st win .mouse tag = .ok (st', false) ∧ FK g st' ∧ Shr st st' := by
+  obtain ⟨ww, hw⟩ := K.held win hg
+  unfold runBinds
+  simp only [getW, get_live hw, bind_ok]
+  have K1 := K.setX_same win { getX st win with iterating := true } rfl rfl
+  have S1 : Shr st (setX st win { getX st win with iterating := true }) :=
+    Shr.of_tree rfl rfl (fun h => h.setX win _ (fun b hb => h win b hb))
+  obtain ⟨st2, h2, K2, S2⟩ := runBinds_go_FK_mouse R win tag (getX st win).binds K1 (S1.nc H)
+  simp only [h2, bind_ok]
+  obtain ⟨w2, hw2⟩ := K2.held win hg
+  simp only [get_live hw2, bind_ok, pure_ok]
+  generalize hx : (if (!(getX st win).iterating && (getX st2 win).needsDelete) = true then
+      ({ pen := (getX st2 win).pen, binds := List.filter (fun b => decide (b.id ≠ -1)) (getX st2 win).binds,
+         iterating := (getX st win).iterating, appRefs := (getX st2 win).appRefs } : WinX)
+    else { pen := (getX st2 win).pen, binds := (getX st2 win).binds, iterating := (getX st win).iterating,
+           needsDelete := (getX st2 win).needsDelete, appRefs := (getX st2 win).appRefs }) = x
+  have hxp : x.pen = (getX st2 win).pen := by rw [← hx]; split <;> rfl
+  have hxa : x.appRefs = (getX st2 win).appRefs := by rw [← hx]; split <;> rfl
+  have hxb : ∀ b ∈ x.binds, b ∈ (getX st2 win).binds := by
+    rw [← hx]; split
+    · intro b hb; exact (List.mem_filter.1 hb).1
+    · intro b hb; exact hb
+  have S3 : Shr st2 (setX st2 win x) := Shr.of_tree rfl rfl (fun h => h.setX win x (fun b hb => h win b (hxb b hb)))
+  exact ⟨_, rfl, K2.setX_same win x hxp hxa, (S1.trans S2).trans S3⟩
+
+/-- What the frames below give for `_handle_mouse`: a recursive call on a child of `win` succeeds, returns no window
+    (nothing claims) and gives back every reference it took. -/
+def RecFM (recM : St → Id → Mouse → Out (St × Option Id)) (win : Nat) (N : Nat) : Prop :=
+  ∀ {st : St} {g : Ghost} {child : Nat} {cw : Win} (info : Mouse), FK g st → NoClaim st → LiveW st.tree child cw →
+    cw.parent = some win → 0 < g.win win → BelowFree g st child → st.tree.wins.size = N →
+    ∃ st', recM st child info = .ok (st', none) ∧ FK g st' ∧ Shr st st'
+
+theorem mouseLoop_FK {recM : St → Id → Mouse → Out (St × Option Id)} {win : Nat} {N : Nat} (hrec : RecFM recM win N)
+    (info : Mouse) :
+    ∀ (cs : List Nat) {st : St} {g : Ghost}, FK g st → NoClaim st → 0 < g.win win → (∀ c ∈ cs, 0 < g.win c) →
+    (∀ c ∈ cs, BelowFree g st c) → st.tree.wins.size = N →
+    ∃ st', mouseLoop recM win info st cs = .ok (st', none) ∧ FK g st' ∧ Shr st st'
+  | [], st, g, K, _, _, _, _, _ => ⟨st, by rw [mouseLoop]; rfl, K, Shr.refl st⟩
+  | child :: rest, st, g, K, H, hgw, hgc, hbf, hN => by
+    obtain ⟨cw, hc⟩ := K.held child (hgc child (by simp))
+    have hgrest : ∀ c ∈ rest, 0 < g.win c := fun x hx => hgc x (by simp [hx])
+    have hbrest : ∀ c ∈ rest, BelowFree g st c := fun x hx => hbf x (by simp [hx])
+    rw [mouseLoop]
+    simp only [getW, get_live hc, bind_ok]
+    by_cases hp : cw.parent ≠ some win
+    · rw [if_pos hp]
+      exact mouseLoop_FK hrec info rest K H hgw hgrest hbrest hN
+    · rw [if_neg hp]
+      have hp' : cw.parent = some win := by
+        cases h : cw.parent with
+        | none => rw [h] at hp; simp at hp
+        | some p => rw [h] at hp; simpa using hp
+      split
+      · exact mouseLoop_FK hrec info rest K H hgw hgrest hbrest hN
+      · obtain ⟨st1, h1, K1, S1⟩ := hrec { info with line := info.line - cw.rect.top, col := info.col - cw.rect.left } K H hc hp' hgw
+          (hbf child (by simp)) hN
+        simp only [h1, bind_ok, Option.isSome_none, Bool.false_eq_true, if_false]
+        obtain ⟨st2, h2, K2, S2⟩ := mouseLoop_FK hrec info rest K1 (S1.nc H) hgw hgrest (fun c hc' => (hbrest c hc').later S1)
+          (S1.size.trans hN)
+        exact ⟨st2, h2, K2, S1.trans S2⟩
+
+theorem mStage2_FK {cfg : Cfg} (R : Repaired cfg) {win : Nat} {st : St} {g : Ghost} (K : FK (g.bumpW win) st)
+    (hbf : BelowFree (g.bumpW win) st win) :
+    ∃ st', mStage2 cfg win (st, none) = .ok (st', none) ∧ FK g st' ∧ Shr st st' := by
+  unfold mStage2
+  obtain ⟨st1, h1, K1, S1⟩ := K.unrefI R (win := win) (by simp) (by
+    intro _ c cw hcl hcp
+    have hlt := (K.inv.tinv.parent_ok c cw hcl win hcp).1
+    exact hbf c cw hcl (.step hcl.1 hcp (.refl win)) (by omega))
+  rw [Ghost.unbump_bumpW] at K1
+  simp only [h1, bind_ok, pure_ok]
+  exact ⟨st1, rfl, K1, S1⟩
+
+/-- The body of `_handle_mouse` with handlers that may do anything but claim, the frames below being in order: it
+    returns no window, so the only references in flight are the frame's own and its snapshot's - the stack discipline. -/
+theorem handleMouseBody_FK {cfg : Cfg} (R : Repaired cfg) {recM : St → Id → Mouse → Out (St × Option Id)} {win : Nat} {N : Nat}
+    (hrec : RecFM recM win N) (info : Mouse) {st : St} {g : Ghost} (K : FK g st) (H : NoClaim st) {ww : Win}
+    (hw : LiveW st.tree win ww) (hpar : ∀ p, ww.parent = some p → 0 < g.win p) (hbf : BelowFree g st win)
+    (hN : st.tree.wins.size = N) :
+    ∃ st', handleMouseBody cfg recM st win info = .ok (st', none) ∧ FK g st' ∧ Shr st st' := by
+  rw [handleMouseBody_eq]
+  obtain ⟨sh, hsh⟩ := isShown_ok K.inv.tinv win ww hw _ (chainFuel_gt hw)
+  simp only [isShownW, hsh, bind_ok]
+  by_cases hs : (!sh) = true
+  · rw [if_pos hs]
+    exact ⟨st, rfl, K, Shr.refl st⟩
+  · rw [if_neg hs]
+    obtain ⟨st0, h0, K0, S0, hx0⟩ := K.refI hw hpar
+    simp only [h0, bind_ok]
+    have hgw : 0 < (g.bumpW win).win win := by simp
+    have hbf0 : BelowFree (g.bumpW win) st0 win := by
+      intro d dw hld hr hne
+      rw [Ghost.bumpW_ne g hne]
+      exact (hbf.later S0) d dw hld hr hne
+    have hN0 := S0.size.trans hN
+    have H0 := S0.nc H
+    obtain ⟨w, hwl⟩ := K0.held win hgw
+    unfold refChildren
+    simp only [getW, get_live hwl, bind_ok]
+    have hch : ∀ c ∈ w.children, ∃ cw, LiveW st0.tree c cw ∧ cw.parent = some win := fun c hc =>
+      K0.inv.tinv.child_ok win w hwl c hc
+    obtain ⟨st1, h1, K1, S1, hx1, hsame1⟩ := foldl_refW_FK w.children K0 (fun c hc => by
+      obtain ⟨cw, hcl, hcp⟩ := hch c hc
+      exact ⟨cw, hcl, fun p hp => by rw [hcp] at hp; cases hp; exact hgw⟩)
+    simp only [h1, bind_ok, pure_ok]
+    have hch1 : ∀ c ∈ w.children, ∃ cw, LiveW st1.tree c cw ∧ cw.parent = some win := fun c hc => by
+      obtain ⟨cw, hcl, hcp⟩ := hch c hc
+      obtain ⟨cw', hcl', hpe⟩ := hsame1 c cw hcl
+      exact ⟨cw', hcl', by rw [hpe]; exact hcp⟩
+    have hbf1 : BelowFree (g.bumpW win) st1 win := hbf0.later S1
+    have hbfc : ∀ c ∈ w.children, BelowFree ((g.bumpW win).plus (fun j => w.children.count j)) st1 c := by
+      intro c hc d dw hld hr hne
+      obtain ⟨cw, hcl, hcp⟩ := hch1 c hc
+      have h0 := (hbf1.child K1.inv.tinv hcl hcp) d dw hld hr hne
+      simp only [Ghost.plus_win, h0, Nat.zero_add]
+      apply List.count_eq_zero.2
+      intro hdm
+      obtain ⟨dw', hdl', hdp⟩ := hch1 d hdm
+      have := LiveW.unique hld hdl'; subst this
+      exact hne (not_below_sibling K1.inv.tinv hld hdp hcl hcp hr)
+    obtain ⟨st2, h2, K2, S2⟩ := mouseLoop_FK hrec info w.children K1 (S1.nc H0) (by simp; omega) (fun c hc => by
+        simp only [Ghost.plus_win]
+        have := List.count_pos_iff.2 hc
+        omega) hbfc (S1.size.trans hN0)
+    simp only [h2, bind_ok]
+    unfold unrefChildren
+    obtain ⟨st3, h3, K3, S3⟩ := foldl_unrefW_FK R (g := g.bumpW win) w.children K2 (by
+      intro c hc d dw hld hpd
+      obtain ⟨cw, hcl, hcp⟩ := hch1 c hc
+      obtain ⟨d1, hdl1⟩ := S2.back d dw hld
+      obtain ⟨d1', hd1', hp1⟩ := S2.psub d dw c hld.1 hpd
+      have : d1' = d1 := by rw [hdl1.1] at hd1'; exact (Option.some.inj hd1').symm
+      subst this
+      have hcd := (K1.inv.tinv.parent_ok d d1' hdl1 c hp1).1
+      have hwc := (K1.inv.tinv.parent_ok c cw hcl win hcp).1
+      refine ⟨hbf1 d d1' hdl1 (.step hdl1.1 hp1 (.step hcl.1 hcp (.refl win))) (by omega), ?_⟩
+      intro hdm
+      obtain ⟨dw', hdl', hdp⟩ := hch1 d hdm
+      have := LiveW.unique hdl1 hdl'; subst this
+      rw [hp1] at hdp; cases hdp
+      omega)
+    have S03 : Shr st0 st3 := (S1.trans S2).trans S3
+    simp only [h3, bind_ok, Option.isSome_none, Bool.false_eq_true, if_false]
+    obtain ⟨w3, hw3⟩ := K3.held win hgw
+    obtain ⟨sh3, hsh3⟩ := isShown_ok K3.inv.tinv win w3 hw3 _ (chainFuel_gt hw3)
+    simp only [hsh3, bind_ok]
+    by_cases hs3 : sh3 = true
+    · rw [if_pos hs3]
+      obtain ⟨st4, h4, K4, S4⟩ := runBinds_FK_mouse R K3 (S03.nc H0) hgw (logMouse win info)
+      simp only [h4, bind_ok, Bool.false_eq_true, if_false]
+      obtain ⟨st5, h5, K5, S5⟩ := mStage2_FK R K4 (hbf0.later (S03.trans S4))
+      exact ⟨st5, h5, K5, ((S0.trans S03).trans S4).trans S5⟩
+    · rw [if_neg hs3]
+      obtain ⟨st5, h5, K5, S5⟩ := mStage2_FK R K3 (hbf0.later S03)
+      exact ⟨st5, h5, K5, (S0.trans S03).trans S5⟩
+
+/-- `_handle_mouse` with enough recursion budget for the windows below `win`. -/
+theorem handleMouse_FK {cfg : Cfg} (R : Repaired cfg) : ∀ (fuel : Nat) {st : St} {g : Ghost} {win : Nat} {ww : Win} (info : Mouse),
+    FK g st → NoClaim st → LiveW st.tree win ww → (∀ p, ww.parent = some p → 0 < g.win p) → BelowFree g st win →
+    st.tree.wins.size ≤ win + fuel →
+    ∃ st', handleMouse cfg fuel st win info = .ok (st', none) ∧ FK g st' ∧ Shr st st'
+  | 0, st, g, win, ww, _, _, _, hw, _, _, hsz => by have := hw.lt; omega
+  | fuel + 1, st, g, win, ww, info, K, H, hw, hpar, hbf, hsz => by
+    unfold handleMouse
+    refine handleMouseBody_FK R (N := st.tree.wins.size) ?_ info K H hw hpar hbf rfl
+    intro st1 g1 child cw info1 K1 H1 hcl hcp hgw hbf1 hN1
+    have hlt := (K1.inv.tinv.parent_ok child cw hcl win hcp).1
+    exact handleMouse_FK R fuel info1 K1 H1 hcl (fun p hp => by rw [hcp] at hp; cases hp; exact hgw) hbf1 (by omega)
 
 end Tickit.Life
